@@ -67,7 +67,7 @@ let check_component name keys ops final nofinal budget =
   let n = Array.length ops in
   let prog = Bytes.make n '\000' in
   let partial = Array.make n [] in            (* replies of the stages done so far, reversed *)
-  let memo : (string, unit) Hashtbl.t = Hashtbl.create 4096 in
+  let memo : (string, unit) Hashtbl.t = Hashtbl.create 64 in
   let nodes = ref 0 in
   let best = ref (-1) and best_info = ref "" in
   let exception Found in
